@@ -6,6 +6,8 @@
 cd "$(dirname "$0")/.." || exit 2
 S=$1; LANGS=$2; shift; shift
 W=/tmp/seedrepo-$S
+export VERIF_SCRATCH=/tmp/seedrepo-$S-scratch
+mkdir -p "$VERIF_SCRATCH"
 rm -rf "$W"; mkdir -p "$W"; rsync -a --exclude target --exclude .git /repo/ "$W/" || exit 2
 (cd "$W" && patch -p1 -s < "/verif/seeded/$S/patch.diff") || { echo "patch does not apply"; exit 2; }
 for c in "$@"; do
@@ -13,4 +15,4 @@ for c in "$@"; do
   if [ "$LANGS" = "-" ]; then VERIF_REPO=$W VERIF_EVIDENCE_DIR=/tmp/seedrepo-$S-ev ./check "$c" --tier quick > /tmp/seed_${S}_$c.log 2>&1; else VERIF_LANGS=$LANGS VERIF_REPO=$W VERIF_EVIDENCE_DIR=/tmp/seedrepo-$S-ev ./check "$c" --tier quick > /tmp/seed_${S}_$c.log 2>&1; fi
   echo "exit=$?"; grep -v "^\[" /tmp/seed_${S}_$c.log | grep "violated\|VIOLATION\|INCONCL\|quick:" | head -n 8 | cut -c1-400
 done
-rm -rf "$W" /tmp/seedrepo-$S-ev
+rm -rf "$W" /tmp/seedrepo-$S-ev "$VERIF_SCRATCH"
